@@ -244,6 +244,32 @@ theorem schedule_origin_below (next : List Nat) (base : Nat) (a : DAttr) (t : Na
       simp [List.reverse_append, hh]
     rw [e1, e2]; simp
 
+/-- below a list of DIEs none of which is a resolvable import, the cooked walk is the raw list,
+    every DIE carrying the chain it was reached along -/
+theorem cookedBelow_raw (f : Forest) (chain : List Nat) : ∀ (ds : List Die) (fuel : Nat), ds.length ≤ fuel →
+    (∀ d ∈ ds, importTarget f d = none) → cookedBelow f fuel ds chain = ds.map fun d => ⟨d, chain⟩ := by
+  intro ds
+  induction ds with
+  | nil => intro fuel _ _; cases fuel <;> simp [cookedBelow]
+  | cons d rest ih =>
+    intro fuel hl hn
+    cases fuel with
+    | zero => simp at hl
+    | succ n =>
+      simp only [cookedBelow, hn d (by simp), List.map_cons, List.singleton_append, List.cons.injEq, true_and]
+      exact ih n (by simp at hl; omega) (fun x hx => hn x (by simp [hx]))
+
+/-- **without imports the cooked view of a unit is its raw view**: the root, then all DIEs below
+    it in section order -/
+theorem cooked_unit_is_raw (f : Forest) (u : DUnit) (fuel : Nat) (hl : (preorderList u.root.children).length ≤ fuel)
+    (hn : ∀ d ∈ preorderList u.root.children, importTarget f d = none) :
+    (cookedUnitEntries f fuel u).map (·.die) = u.root :: preorderList u.root.children := by
+  simp only [cookedUnitEntries, List.map_cons, cookedBelow_raw f [] _ fuel hl hn, List.map_map]
+  congr 1
+  induction preorderList u.root.children with
+  | nil => rfl
+  | cons x xs ih => simp [ih]
+
 /-- non-vacuity: a DIE with both references and an inherited attribute on both sides -/
 example :
     let t1 : Die := .mk 20 0x34 false [{ name := 3, form := 8, ref := none }] []
